@@ -785,7 +785,9 @@ def r7(ctx: Ctx, m):
       t = n.ast.targets[0]
       if isinstance(t, ast.Name):
         rets = [r for r in g.nodes if r.kind == 'stmt' and isinstance(r.ast, ast.Return)]
-        if rets and all(isinstance(r.ast.value, ast.Name) and r.ast.value.id == t.id
+        from mlmverif.core import plain_copies
+        t_names = plain_copies(fi.node, t.id)
+        if rets and all(isinstance(r.ast.value, ast.Name) and r.ast.value.id in t_names
                         for r in rets):
           reach = g.reachable([s for s, l in n.succ if l == 'next'],
                               edge_ok=cfgm.only_normal, include_src=True)
@@ -1451,6 +1453,8 @@ from mlmverif.selfcheck import B, OK  # noqa: E402
 
 _F = 'utils/iter_utils.py'
 VARIANTS = [
+    OK('dequeued-value-through-a-local', 'utils/iter_utils.py',
+       "          value = self.get_nowait()\n", "          item = self.get_nowait()\n          value = item\n"),
     OK('returned-values-through-a-local', 'utils/iter_utils.py',
        "      self._returned.extend(values)\n", "      ended_with = values\n      self._returned.extend(ended_with)\n"),
     OK('put-through-a-local', 'utils/iter_utils.py',
